@@ -179,7 +179,13 @@ func (e *Exec) builtin(st *State, f *Frame, b *ssa.Builtin, args []Value, cc *ss
 				return e.ts.Const(64, 0)
 			}
 			md := e.getObject(st, x.Obj).V.(*MapData)
-			return e.ts.Const(64, uint64(len(md.Keys)))
+			n := 0
+			for i := range md.Keys {
+				if e.entryPresent(st, md, i) {
+					n++
+				}
+			}
+			return e.ts.Const(64, uint64(n))
 		case *ArrayV:
 			return e.ts.Const(64, uint64(len(x.E)))
 		case *PtrV:
@@ -431,11 +437,13 @@ func (e *Exec) mapLookup(st *State, m *MapV, key Value, elem types.Type) (Value,
 	}
 	key = e.substConc(st, key)
 	md := e.getObject(st, m.Obj).V.(*MapData)
-	// all-concrete fast path
 	val := zero
 	found := e.ts.False
 	for i := len(md.Keys) - 1; i >= 0; i-- {
 		eq := e.keyEq(st, md.Keys[i], key)
+		if md.Present != nil {
+			eq = e.ts.And(md.Present[i], eq)
+		}
 		if eq.IsFalse() {
 			continue
 		}
@@ -446,12 +454,26 @@ func (e *Exec) mapLookup(st *State, m *MapV, key Value, elem types.Type) (Value,
 		}
 		mv, ok := e.mergeValue(eq, md.Vals[i], val)
 		if !ok {
-			panic(&concretizeReq{e.someSymbolicPart(key)})
+			if t := e.someSymbolicPart(key); t != nil {
+				panic(&concretizeReq{t})
+			}
+			if t := e.someSymbolicPart(md.Keys[i]); t != nil {
+				panic(&concretizeReq{t})
+			}
+			panic(&concretizeReq{md.Present[i]})
 		}
 		val = mv
 		found = e.ts.Or(eq, found)
 	}
 	return val, found
+}
+
+// entryPresent decides (concretising if needed) whether entry i of md exists on this path.
+func (e *Exec) entryPresent(st *State, md *MapData, i int) bool {
+	if md.Present == nil {
+		return true
+	}
+	return e.concrete(st, md.Present[i]) != 0
 }
 
 // someSymbolicPart finds a symbolic scalar inside key to concretise.
@@ -566,43 +588,107 @@ func (e *Exec) mapUpdate(st *State, m *MapV, key, val Value) {
 	if m.Obj == 0 {
 		e.goPanic(st, "assignment to entry in nil map")
 	}
-	key = e.concreteKey(st, key)
+	key = e.substConc(st, key)
 	o := e.writableObject(st, m.Obj)
 	md := o.V.(*MapData)
+	// does an entry certainly carry this key?
+	eqs := make([]*term.Term, len(md.Keys))
+	anyEq := e.ts.False
 	for i, k := range md.Keys {
 		eq := e.keyEq(st, k, key)
+		if md.Present != nil {
+			eq = e.ts.And(md.Present[i], eq)
+		}
+		eqs[i] = eq
 		if eq.IsTrue() {
 			nv := append([]Value(nil), md.Vals...)
 			nv[i] = val
-			o.V = &MapData{Keys: md.Keys, Vals: nv}
+			o.V = &MapData{Keys: md.Keys, Vals: nv, Present: md.Present}
 			return
 		}
-		if !eq.IsFalse() {
-			// stored key symbolic vs concrete probe: decide by concretising the stored key
-			panic(&concretizeReq{e.someSymbolicPart(k)})
-		}
+		anyEq = e.ts.Or(anyEq, eq)
 	}
 	nk := append(append([]Value(nil), md.Keys...), key)
-	nv := append(append([]Value(nil), md.Vals...), val)
-	o.V = &MapData{Keys: nk, Vals: nv}
+	if anyEq.IsFalse() {
+		nv := append(append([]Value(nil), md.Vals...), val)
+		var np []*term.Term
+		if md.Present != nil {
+			np = append(append([]*term.Term(nil), md.Present...), e.ts.True)
+		}
+		o.V = &MapData{Keys: nk, Vals: nv, Present: np}
+		return
+	}
+	// symbolic case: overwrite the matching entry (if any), otherwise a new entry exists
+	nv := make([]Value, 0, len(md.Vals)+1)
+	for i := range md.Vals {
+		if eqs[i].IsFalse() {
+			nv = append(nv, md.Vals[i])
+			continue
+		}
+		mv, ok := e.mergeValue(eqs[i], val, md.Vals[i])
+		if !ok {
+			if t := e.someSymbolicPart(key); t != nil {
+				panic(&concretizeReq{t})
+			}
+			if t := e.someSymbolicPart(md.Keys[i]); t != nil {
+				panic(&concretizeReq{t})
+			}
+			panic(&concretizeReq{eqs[i]})
+		}
+		nv = append(nv, mv)
+	}
+	nv = append(nv, val)
+	np := make([]*term.Term, 0, len(md.Keys)+1)
+	for i := range md.Keys {
+		if md.Present != nil {
+			np = append(np, md.Present[i])
+		} else {
+			np = append(np, e.ts.True)
+		}
+	}
+	np = append(np, e.ts.Not(anyEq))
+	o.V = &MapData{Keys: nk, Vals: nv, Present: np}
 }
 
 func (e *Exec) mapDelete(st *State, m *MapV, key Value) {
-	key = e.concreteKey(st, key)
+	key = e.substConc(st, key)
 	o := e.writableObject(st, m.Obj)
 	md := o.V.(*MapData)
+	np := make([]*term.Term, len(md.Keys))
+	changed := false
 	for i, k := range md.Keys {
-		eq := e.keyEq(st, k, key)
-		if eq.IsTrue() {
-			nk := append(append([]Value(nil), md.Keys[:i]...), md.Keys[i+1:]...)
-			nv := append(append([]Value(nil), md.Vals[:i]...), md.Vals[i+1:]...)
-			o.V = &MapData{Keys: nk, Vals: nv}
-			return
+		p := e.ts.True
+		if md.Present != nil {
+			p = md.Present[i]
 		}
-		if !eq.IsFalse() {
-			panic(&concretizeReq{e.someSymbolicPart(k)})
+		eq := e.keyEq(st, k, key)
+		np[i] = e.ts.And(p, e.ts.Not(eq))
+		if np[i] != p {
+			changed = true
 		}
 	}
+	if !changed {
+		return
+	}
+	// drop entries that are certainly gone
+	var nk, nv []Value
+	var pp []*term.Term
+	allTrue := true
+	for i := range md.Keys {
+		if np[i].IsFalse() {
+			continue
+		}
+		nk = append(nk, md.Keys[i])
+		nv = append(nv, md.Vals[i])
+		pp = append(pp, np[i])
+		if !np[i].IsTrue() {
+			allTrue = false
+		}
+	}
+	if allTrue {
+		pp = nil
+	}
+	o.V = &MapData{Keys: nk, Vals: nv, Present: pp}
 }
 
 // ---------------------------------------------------------------------------
